@@ -180,7 +180,30 @@ def paren_variants(text):
             yield (data[:a] + b'( ' + data[a:b] + b' )' + data[b:]).decode('utf-8')
 
 
+def run_fstr_shard(args):
+    """the implicit-concatenation product of string / f-string literals (escapes before fields, multi-line fields, nested specs)"""
+    r = C.Result()
+    texts = sorted({t for t in K.fstring_product(args[1]) if K.cpython_parse(t, 'exec')[0] is not None})
+    hashes = set()
+    for chunk in (texts[i:i + 3000] for i in range(0, len(texts), 3000)):
+        res = C.run_worker(['parse\texec\t' + C.hx(t) for t in chunk], cfg='all-nodes')
+        for text, obs in zip(chunk, res):
+            out, fails = judge(text, obs)
+            r.evaluations += 1
+            r.transitions += 1
+            r.outcomes['fstr:%s' % out] += 1
+            r.by_bound['f-string product'] += 1
+            if out in ('equal', 'range-fail'):
+                hashes.add(c01.h64(text))
+                r.validated += 1
+            r.fails.extend(fails)
+    r.extra['_hashes'] = hashes
+    return r
+
+
 def run_shard(args):
+    if args[0] == 'fstr':
+        return run_fstr_shard(args)
     if args[0] in ('lex', 'hdr', 'layout'):
         return run_lex_shard(args)
     paths, d, tier, start = args
@@ -231,6 +254,7 @@ def run(tier, seed):
     shards = K.shards_for(d, 'file')
     for g in K.group_shards(shards, 400 if tier == 'thorough' else 96):
         jobs.append((g, d, tier, 'file'))
+    jobs.append(('fstr', 2 if tier == 'quick' else 3))
     nl, nh = c01.LEX_N[tier], c01.HDR_N[tier] - 1
     jobs += [('lex', nl, sh) for sh in X.prefix_shards(c01.LEX, nl, 1 if tier == 'quick' else 2)]
     jobs += [('hdr', nh, sh) for sh in X.prefix_shards(c01.HDR, nh, 1 if tier == 'quick' else 2)]
@@ -244,7 +268,7 @@ def run(tier, seed):
     rule = ('E-DERIV over G_ref, every derivation with at most %d non-default alternatives that CPython accepts, rendered under the layouts %s (sentences below the bound also with a redundant pair of parentheses around each expression occurrence) and parsed by the '
             'all-nodes-with-ranges build; every node of every tree: structural clauses + range equality with CPython line/col converted to byte offsets (for the node kinds '
             'CPython positions); plus E-STR: every separator-free concatenation of <=%d lexemes of the %d-lexeme alphabet of C01 and every sequence of <=%d header tokens in the %d statement '
-            'templates of C01 and every concatenation of layout lexemes of C01 that CPython accepts; states = distinct_nontrivial = distinct texts whose tree equals the reference tree (so that ranges can be compared node by node)'
+            'templates of C01, the implicit-concatenation product of the 17 string/f-string literals, and every concatenation of layout lexemes of C01 that CPython accepts; states = distinct_nontrivial = distinct texts whose tree equals the reference tree (so that ranges can be compared node by node)'
             % (d, LAYOUT_NAMES, nl, len(c01.LEX), nh, len(c01.HDR_TEMPLATES)))
     return C.finish(PROP, tier, seed, t0, total, rule,
                     ['CPython 3.11 lineno/col_offset (UTF-8 bytes within the line, universal newlines, BOM not part of line 1) define the reference extents',
